@@ -153,6 +153,24 @@ StringObsOK_D17(c) ==
         ((\E n \in MatchLens(c, o) : n > 0) /\ ~(\E j \in 1..Len(c.obs) : c.obs[j][1] = o))
           => Cardinality(RawLens(c, o)) >= 2
 
+\* D40: a counted repeat e{n,m} written with braces whose body can match the empty string, and whose emitted code has a
+\* repeat section that may iterate more than once (m >= 3 or unbounded): the guard against endless loops of re.c
+\* (_yr_re_fiber_sync: a split instruction is followed once between two consumed bytes) kills the second pass through the
+\* body, so iterations that would match nothing - or that end in the split with which the next one starts, as in (a*){3,6}
+\* - are lost. Offsets may be MISSED (never added, never with a length the expression cannot match).
+RECURSIVE HasNullableCounted(_)
+HasNullableCounted(nd) ==
+  CASE nd.t = "rep" -> \/ ("brace" \in DOMAIN nd /\ nd.brace /\ Nullable(nd.x) /\ (nd.hi < 0 \/ nd.hi >= 3))
+                       \/ HasNullableCounted(nd.x)
+    [] nd.t \in {"cat", "alt"} -> \E k \in 1..Len(nd.xs) : HasNullableCounted(nd.xs[k])
+    [] OTHER -> FALSE
+StringObsOK_D40(c) ==
+  /\ HasNullableCounted(c.ast)
+  /\ \A j \in 1..(Len(c.obs) - 1) : c.obs[j][1] < c.obs[j + 1][1]
+  /\ \A j \in 1..Len(c.obs) : /\ c.obs[j][1] >= 0 /\ c.obs[j][1] < Len(c.buf)
+                              /\ c.obs[j][2] > 0 /\ c.obs[j][2] \in MatchLens(c, c.obs[j][1])
+MatchesOK_D40(c) == HasNullableCounted(c.ast) /\ c.obs = FALSE
+
 \* the `matches` operator: true iff the expression matches somewhere in the operand string (empty match allowed)
 MatchesOp(ast, s, fl) == \E o \in 0..Len(s) : Ends(ast, s, o, fl) # {}
 =============================================================================
